@@ -72,7 +72,7 @@ def eval_var(var):
 
     """
     try:
-        return literal_eval(var)
+        ret = literal_eval(var)
     except ValueError:
         raise InputError(
             f'Invalid template variable: {var}'
@@ -83,6 +83,17 @@ def eval_var(var):
             f'Invalid template variable: {var}'
             '\n(values must be valid Python literals)'
         ) from None
+    # Template variables are stored in the workflow database as repr(value)
+    # and read back with literal_eval on restart: refuse values that would
+    # not survive that (float overflow -> inf, "...", ints too long to print).
+    try:
+        literal_eval(repr(ret))
+    except (ValueError, SyntaxError):
+        raise InputError(
+            f'Invalid template variable: {var}'
+            '\n(the value cannot be written back as a Python literal)'
+        ) from None
+    return ret
 
 
 def parse_string_list(stringlist: str) -> list[str]:
